@@ -904,7 +904,8 @@ def model_for_case(rng, multi_sub_p=0.0, template_p=0.15, shuffle_p=0.15, alias_
   if shuffle_p and rng.random() < shuffle_p:
     spec = shuffle_indices(spec, rng, dangling=bool(rng.random() < 0.3),
                            shape_sigs=[None, None, 'static', 'dynamic'][int(rng.integers(4))], opcodes=bool(rng.random() < 0.3),
-                           alias_signature=bool(rng.random() < alias_p))
+                           alias_signature=bool(rng.random() < alias_p), empty_quant=bool(rng.random() < 0.5),
+                           name_collision=bool(rng.random() < 0.25))
   return spec
 
 
@@ -1087,7 +1088,7 @@ def t_fanout(rng, k=None):
 # ---------------------------------------------------------------- semantics-preserving surgery (index hygiene)
 
 def shuffle_indices(spec, rng, tensors=True, buffers=True, signatures=True, dangling=False, shape_sigs=None, opcodes=False,
-                    alias_signature=False):
+                    alias_signature=False, empty_quant=False, name_collision=False):
   """Returns a spec describing the SAME model with tensor indices permuted inside every subgraph, data buffers
   permuted (buffer 0 stays the empty sentinel), the signature list reordered and optionally an unused constant
   tensor added.  Nothing about the computation changes; only code that confuses an index with an identity notices."""
@@ -1120,6 +1121,22 @@ def shuffle_indices(spec, rng, tensors=True, buffers=True, signatures=True, dang
     for sg in m.subgraphs:
       for t in sg.tensors:
         t.buffer = bperm[int(t.buffer)]
+  if empty_quant:
+    # the converter writes an EMPTY QuantizationParameters table on every float tensor (not a missing one)
+    for sg in m.subgraphs:
+      for t in sg.tensors:
+        if t.quantization is None:
+          t.quantization = S.QuantizationParametersT()
+  if name_collision:
+    # a tensor already called like the tensor a QUANTIZE / DEQUANTIZE would be inserted as (a model that went through such a tool before)
+    for sg in m.subgraphs:
+      rt = [t for t in sg.tensors if m.buffers[int(t.buffer)].data is None or len(m.buffers[int(t.buffer)].data) == 0]
+      names = {t.name for t in sg.tensors}
+      if len(rt) >= 2:
+        i, j = [int(v) for v in rng.choice(len(rt), size=2, replace=False)]
+        new = rt[i].name + (b'_dequant' if rng.random() < 0.5 else b'_quantized')
+        if new not in names:
+          rt[j].name = new
   if opcodes and m.operatorCodes:
     # the same builtin code listed twice (the converter keys operator_codes by (code, version)): some operators use the copy
     k = int(rng.integers(len(m.operatorCodes)))
